@@ -144,6 +144,47 @@ pub fn cyclic_types() -> Vec<Case> {
         ));
     }
     out.extend(never_holes());
+    out.extend(uninferred());
+    out
+}
+
+/// Values whose type argument is never inferred (`Option.None`, `[]`, a
+/// generic enum's unit variant, nested): the checker leaves a type variable,
+/// `TypeInfo::convert` turns it into the never type, and every consumer of
+/// the value (==, clone, drop, match, f-string, method, list literal, return)
+/// has to cope with an uninhabited component.
+fn uninferred() -> Vec<Case> {
+    const VALUES: &[&str] = &[
+        "Option.None", "[]", "E.Y", "E2.Q", "[[]]", "[Option.None]", "Option.Some([])", "Option.Some(Option.None)",
+        "{ inner: Option.None }", "{ inner: [] }", "W { inner: Option.None }", "W { inner: [] }", "E.X(Option.None)",
+        "E2.P(1, [])", "[].get(0)", "[].concat([])", "Result.Ok(Option.None)",
+    ];
+    const USES: &[&str] = &[
+        "@ == @;",
+        "@ != @;",
+        "let x = @; x == x;",
+        "let x = @; let y = x; x == y;",
+        "let x = @; let y = [x, x]; y == y;",
+        "let x = @; let r = { a: x, b: x }; r == r;",
+        "let x = @; let o = Option.Some(x); o == o;",
+        "let x = @; x = x;",
+        "let x = @; let s = f\"{x}\";",
+        "let x = @; match Option.Some(x) { Some(v) => v == v, None => false };",
+        "let x = @; for e in [x] { e == e; }",
+        "let x = @; [x].contains(x);",
+        "let x = @; while false { x == x; }",
+        "let x = @; if true { x } else { x };",
+    ];
+    let mut out = vec![];
+    for v in VALUES {
+        for u in USES {
+            let body = u.replace('@', v);
+            out.push(Case::single("boundary uninferred", format!("{}fn main() {{ {body} }}\n", decls_for(&body))));
+        }
+        let d = decls_for(v);
+        out.push(Case::single("boundary uninferred", format!("{d}fn main() -> bool {{ {v} == {v} }}\n")));
+        out.push(Case::single("boundary uninferred", format!("{d}fn f() -> bool {{ let x = {v}; x == x }}\nfn main() -> bool {{ f() && f() }}\n")));
+    }
     out
 }
 
